@@ -942,7 +942,20 @@ def uniqueify(seq):
     return tuple(x for x in seq if x not in seen and not seen.add(x))
 
 
+# text which Excel reads as a number.  float() and int() also read 'inf', 'nan',
+# '1_0', non-ascii digits and non-ascii white space, which are text in Excel
+NUMERIC_TEXT_RE = re.compile(
+    r'[ \t\n\v\f\r]*[+-]?([0-9]+\.?[0-9]*|\.[0-9]+)([eE][+-]?[0-9]+)?[ \t\n\v\f\r]*\Z')
+
+
+def is_numeric_text(value):
+    return (NUMERIC_TEXT_RE.match(value) is not None and
+            float(value) not in (float('inf'), float('-inf')))
+
+
 def is_number(value):
+    if isinstance(value, str) and not is_numeric_text(value):
+        return False
     try:
         float(value)
         return True
@@ -966,6 +979,9 @@ def coerce_to_number(value, convert_all=False):
     # True and False strings become numbers
     if convert_all and value.upper() in ('TRUE', 'FALSE', EMPTY):
         return int(len(value) == 4)
+
+    if not is_numeric_text(value):
+        return value
 
     try:
         if '.' not in value:
